@@ -19,7 +19,7 @@ THEOREMS = ["Ymq.C10." + t for t in (
     "basic_mul_spec karatsuba_spec karatsuba_domain mul_karatsuba_spec mul_karatsuba_zmod "
     "middlemul_spec middlemul_pub_spec inv_mod_xn_spec div_mod_xn_spec div_mod_xn_zmod "
     "product_tree_spec from_roots_spec multi_eval_tree_spec multi_eval_spec multi_eval_zmod roots_eval_direct_spec "
-    "mul_spec fft_spec mulfft_spec mulfft_exact kronecker_cyclic_fft roots_eval_spec roots_eval_zmod crt_q_estimate").split()]
+    "mul_spec fft_spec mulfft_spec mulfft_exact kronecker_cyclic_fft roots_eval_spec roots_eval_zmod crt_q_estimate fint_mul_karatsuba").split()]
 HYPOTHESES = []
 PROFILES = ["release", "chk"]
 TIMEOUT = 60.0
@@ -44,7 +44,9 @@ MODELLED = [
     "convolve_modn translated from the source (Ymq/Model/Kronecker.lean, Ymq/Gen/Params.lean); the transform product is a parameter: the "
     "driver and kronecker_cyclic_fft use cycFft = packed words as FInt<N> with top word 0 + the word-level mulfft + values read back",
     "arith_fft::FInt::{reduce, add, add_assign, add_small, sub, sub_assign, shl (all word-shift branches and both carry-free shortcuts), "
-    "shr, twiddle, mul (both top-word shortcuts and the general branch around an exact 2N-word product)}, butterfly, the recursive fft "
+    "shr, twiddle, mul (both top-word shortcuts; the word-level Karatsuba product: mulbasic with its overflow checks, split, carries of "
+    "the middle product, the two _sub_slices, carrymid - (carrylo + carryhi), recombination with the carry propagation of b8c535f, both "
+    "debug_asserts; scratch only by length since every call zero-fills before reading)}, butterfly, the recursive fft "
     "(strided even/odd recursion, twiddle exponents idx / 2^k - idx, length-1/2 base cases, shr in the inverse direction), mulfft, "
     "word-exact incl. every debug_assert/overflow/index panic site (Ymq/Model/FInt.lean)",
     "arith_fft::MultiZmodP::{new (tables without roots of unity), from_mint, _crt (three quotient-estimate branches, column loop, "
@@ -65,9 +67,8 @@ UNMODELLED = [
     "ZmodN::{mul, add, sub, redc, redc_large} are exact modular arithmetic on residues on the domain proved in C07 (redc_large_spec, "
     "add_spec, redc_spec); MInt == is equality of residues (MInts are reduced: C07); mg_mul/mg_redc are the word-exact C07 models; "
     "arith::inv_mod64 (C08) is the mathematical inverse",
-    "the Karatsuba routine inside FInt::mul (mulbasic/karatsuba on word slices; the model takes the exact 2N-word product) and "
-    "MultiZmodP::ntt_inplace with its root tables have NO mechanism model and no theorem: fint_mul, fint_mulfft, mzp_ntt and every "
-    "convolve_modn_ntt case tie them to the specification by K (specification model) and O (Python) only; Poly::mul_fft likewise",
+    "MultiZmodP::ntt_inplace with its root tables has NO mechanism model and no theorem: mzp_ntt and every convolve_modn_ntt case tie "
+    "it to the specification by K (specification model) and O (Python) only; Poly::mul_fft likewise",
     "bnum U1024/U2048 operators are modelled as Nat arithmetic; memory safety of get_unchecked is not modelled",
 ]
 
@@ -1119,8 +1120,9 @@ CLAIM = ("Lean theorems, for all inputs, about executable models of arith_fft.rs
          "(2) FInt<N> modulo 2^(64N)+1, word-exact, every N >= 1: reduce, add_assign, add_small, sub_assign, butterfly, shl, shr, twiddle, "
          "mul return the right residue in the code's normal form without reaching a panic site; the recursive fft equals the algebraic "
          "radix-2 recursion with the root sqrt2^(256N/2^k) (fft_spec, both directions) and mulfft is the cyclic convolution modulo F "
-         "(mulfft_spec = dft_conv instantiated; mulfft_exact discharges ExactCyc for every N of the table); the one ingredient taken as "
-         "exact is the 2N-word product inside FInt::mul. (3) MultiZmodP: arithmetic statements only: the CRT quotient is unique and < w, "
+         "(mulfft_spec = dft_conv instantiated; mulfft_exact discharges ExactCyc for every N of the table); the Karatsuba routine inside "
+         "FInt::mul is the exact 2N-word product with every carry and assert (fint_mul_karatsuba), so nothing below convolve_modn is "
+         "assumed except exact ZmodN arithmetic (C07). (3) MultiZmodP: arithmetic statements only: the CRT quotient is unique and < w, "
          "the assembled value is congruent to the reconstructed integer, the truncated quotient estimate is exact under stated bounds "
          "(crt_q_estimate_partial), the model's quotient estimate (three branches, shifted two-word reads, u128 sums) returns the CRT "
          "quotient on the tables built by the model of MultiZmodP::new (crt_q_estimate), the translated prime table is pairwise coprime with Montgomery "
@@ -1135,8 +1137,7 @@ CLAIM = ("Lean theorems, for all inputs, about executable models of arith_fft.rs
          "models (K) and judged by an independent Python schoolbook/big-integer oracle (O).")
 LEVEL_NOTE = ("Trusted: Lean kernel (+propext, Classical.choice, Quot.sound); the hand-written models' correspondence to the Rust code (sampled by "
               "the harness in both profiles, not proved); the translator for the dispatch table and the prime table; Python integers in the oracle. "
-              "NO THEOREM, tied to the schoolbook specification by K/O only: the Karatsuba routine inside FInt::mul (the FInt model takes the "
-              "exact 2N-word product; defect in it found by K/O and fixed, b8c535f), MultiZmodP::ntt_inplace and the NTT-based "
+              "NO THEOREM, tied to the schoolbook specification by K/O only: MultiZmodP::ntt_inplace and the NTT-based "
               "convolve_modn_ntt at word level (exact convolution inside the arith_poly models), Poly::mul_fft, roots_eval with |b| = 1. "
               "crt_q_estimate covers the quotient estimate of _crt only: from_mint, the column loop of _crt and redc, and that V < P/2 for the values "
               "_crt is called on, are checked by K/O (mzp_crt, mzp_redc) only. The arith_poly theorems are about models over abstract "
